@@ -187,12 +187,22 @@ fn plain_of_ints(s: &Setup, lv: &Level, n: usize, cs: &[i128]) -> Vec<u64> {
     data
 }
 
+/// bit length of a big integer (the generator places its boundary magnitudes by the TRUE bit count of Q, not by the library's cached count)
+fn big_bits(q: &crate::big::Big) -> usize { let l = q.limbs(64); let mut top = 0usize; for (i, w) in l.iter().enumerate() { if *w != 0 { top = i * 64 + (64 - w.leading_zeros() as usize); } } top }
+
 /// distinct NTT-friendly primes of the given bit sizes (any multiplicity of a size, up to 19 equal sizes)
 fn chain_primes(r: &mut Rng, n: usize, bits: &[usize]) -> Option<Vec<u64>> {
     let mut pools: std::collections::BTreeMap<usize, Vec<u64>> = Default::default();
     for &b in bits {
         if pools.contains_key(&b) { continue; }
         let need = bits.iter().filter(|&&x| x == b).count();
+        // every third size class takes its primes from the BOTTOM of the bit range (just above 2^(b-1)): the bit count of a product of such primes is
+        // smaller than the sum of the primes' bit counts, which separates "bits of Q" from "sum of bits" in every bound that depends on it
+        if b >= 12 && b - 1 > (2 * n).trailing_zeros() as usize && r.chance(1, 3) {
+            let mut v: Vec<u64> = vec![]; let mut c = (1u64 << (b - 1)) + 1; let step = 2 * n as u64; let mut tries = 0;
+            while v.len() < need + 2 && tries < 4000 { if Modulus::new(c).is_prime() { v.push(c); } c += step; tries += 1; }
+            if v.len() >= need { pools.insert(b, v); continue; }
+        }
         let ps = [need + 8, need + 2, need].iter().find_map(|&c| std::panic::catch_unwind(|| hu::get_primes(2 * n as u64, b, c)).ok())?;
         pools.insert(b, ps.iter().map(|m| m.value()).collect());
     }
@@ -339,7 +349,7 @@ pub fn run(out: &mut Out, thorough: bool, seed: u64, extra: &[String]) {
             let s = match make(SchemeType::CKKS, n, &qs, 0, true, None) { Some(s) => s, None => { out.raw(&format!("!FAIL ckks_setup {} {} :: context refused # setup", n, fl(&qs))); continue } };
             let enc = CKKSEncoder::new(s.ctx.clone());
             let levels: Vec<Level> = s.levels().iter().map(|pid| { let cd = s.ctx.get_context_data(pid).unwrap();
-                Level { pid: *pid, qs: s.level_qs(pid), bits: cd.total_coeff_modulus_bit_count(), q: crate::big::Big::product(&s.level_qs(pid)) } }).collect();
+                { let q = crate::big::Big::product(&s.level_qs(pid)); let _ = &cd; Level { pid: *pid, qs: s.level_qs(pid), bits: big_bits(&q), q } } }).collect();
             let lmax = if rep == 0 { usize::MAX } else if thorough { 6 } else { 4 };     // EVERY level on the small-degree context of each chain
             let lsel: Vec<usize> = if levels.len() <= lmax { (0..levels.len()).collect() } else {
                 let mut v = vec![0, levels.len() - 1, levels.len() / 2]; for _ in 3..lmax { v.push(r.below(levels.len() as u64) as usize); } v.sort(); v.dedup(); v };
